@@ -38,6 +38,8 @@ func runC19(c *Ctx) {
 	c19R6(c)
 	c19R7(c)
 	c19R8(c)
+	c19R9(c)
+	c19R10(c)
 }
 
 // c19R8: on the cache-hit path too, the digest that is checked and recorded is computed from the bytes.
@@ -800,4 +802,181 @@ func c19R6(c *Ctx) {
 	} else {
 		c.R.Unresolved(r, pRegistry+".FailClosedVerifier.VerifyIndex")
 	}
+}
+
+func isStrConst(v ssa.Value, want string) bool {
+	k, ok := v.(*ssa.Const)
+	return ok && k.Value != nil && k.Value.Kind() == constant.String && constant.StringVal(k.Value) == want
+}
+
+// strEqEdges: the edges on which some string value equals the constant want.
+func strEqEdges(fn *ssa.Function, want string) []kit.Edge {
+	return kit.CmpEdges(fn, func(b *ssa.BinOp) (bool, bool) {
+		if isStrConst(b.X, want) || isStrConst(b.Y, want) {
+			switch b.Op {
+			case token.EQL:
+				return true, true
+			case token.NEQ:
+				return true, false
+			}
+		}
+		return false, false
+	})
+}
+
+// c19R9: the role label of an index signature lives in the unsigned envelope; what makes a signature a ROOT
+// signature is the key set it was verified against. A key is looked up in TrustAnchors.Roots only for an entry
+// declared "root" and in TrustAnchors.Freshness only for one declared "freshness", and Verify counts a signature as
+// root-verified only on the "root" arm behind ed25519.Verify — so the (nightly, online) freshness key can never
+// authorise new index content, i.e. an arbitrary version / artifact set.
+func c19R9(c *Ctx) {
+	r := c.R.Rule("R9", "K3 index signature roles: TrustAnchors.Roots is consulted only on a role==\"root\" edge and TrustAnchors.Freshness only on a role==\"freshness\" edge; in index.Verify the root-verified flag becomes true only on the \"root\" arm behind the ed25519.Verify success edge", 4)
+	rootsF := c.Field(r, pRegIndex, "TrustAnchors", "Roots")
+	freshF := c.Field(r, pRegIndex, "TrustAnchors", "Freshness")
+	pkg := c.W.Pkg(pRegIndex)
+	verify := c.SSA(r, pRegIndex, "Verify")
+	if rootsF == nil || freshF == nil || pkg == nil || verify == nil {
+		return
+	}
+	n := 0
+	for _, fn := range c.W.AllFuncs(c.W.SSA[pkg.Types]) {
+		for _, b := range fn.Blocks {
+			for _, in := range b.Instrs {
+				lk, ok := in.(*ssa.Lookup)
+				if !ok {
+					continue
+				}
+				for _, t := range []struct {
+					f    *types.Var
+					role string
+				}{{rootsF, "root"}, {freshF, "freshness"}} {
+					if !kit.IsFieldLoad(lk.X, t.f) {
+						continue
+					}
+					n++
+					c.Dominated(r, kit.FuncKey(fn)+": TrustAnchors."+t.f.Name()+" consulted only for a signature declared "+t.role, []ssa.Instruction{lk}, kit.NewGates().AddEdges(strEqEdges(fn, t.role), "role == "+t.role), "the role == \""+t.role+"\" edge")
+				}
+			}
+		}
+	}
+	c.R.Check(n >= 2, r, "index: anchor lookups", c.Pos(verify.Pos()), "found", "fewer than two lookups in TrustAnchors.Roots / .Freshness found", true)
+	// Verify: RootVerified
+	rvF := c.Field(r, pRegIndex, "VerifiedIndex", "RootVerified")
+	edv := c.W.ExtObj("crypto/ed25519", "Verify")
+	if rvF == nil || edv == nil {
+		c.R.Unresolved(r, "VerifiedIndex.RootVerified / ed25519.Verify")
+		return
+	}
+	g := kit.NewGates().AddEdges(strEqEdges(verify, "root"), "sig.Role == root")
+	g2 := kit.NewGates()
+	for _, call := range kit.CallsTo(verify, Set(edv.(*types.Func))) {
+		g2.AddEdges(kit.CondEdges(call.Value(), true), "ed25519.Verify")
+	}
+	m := 0
+	seen := map[ssa.Value]bool{}
+	var walk func(v ssa.Value)
+	walk = func(v ssa.Value) {
+		if seen[v] {
+			return
+		}
+		seen[v] = true
+		phi, ok := v.(*ssa.Phi)
+		if !ok {
+			if !kit.IsBoolConst(v, false) {
+				c.R.Fail(r, "Verify: the root-verified flag is a constant set on the root arm", c.Pos(verify.Pos()), "RootVerified is computed from something other than `true` assigned on the root arm")
+			}
+			return
+		}
+		for i, e := range phi.Edges {
+			if kit.IsBoolConst(e, true) {
+				m++
+				pred := phi.Block().Preds[i]
+				last := pred.Instrs[len(pred.Instrs)-1]
+				c.Dominated(r, "Verify: root-verified only for a signature declared root", []ssa.Instruction{last}, g, "the sig.Role == \"root\" edge")
+				c.Dominated(r, "Verify: root-verified only behind ed25519.Verify", []ssa.Instruction{last}, g2, "the ed25519.Verify(...) == true edge")
+				continue
+			}
+			walk(e)
+		}
+	}
+	for _, st := range kit.FieldStores(verify, rvF) {
+		walk(st.Val)
+	}
+	c.R.Check(m >= 1, r, "Verify: root-verified assignment", c.Pos(verify.Pos()), "found", "no `rootVerified = true` reaching VerifiedIndex.RootVerified found", true)
+}
+
+// c19R10: the digest Download reports — the one CheckCorruption compares with the index and the verifier and manifest
+// see — covers exactly the bytes of the staged file: one stream is copied into the freshly created file through a
+// TeeReader into the hasher, the hasher is never reset, and the copy is not repeated into the same file.
+func c19R10(c *Ctx) {
+	r := c.R.Rule("R10", "K6/K3 the reported digest is the digest of the staged file: Download copies one response into the O_EXCL-created file through io.TeeReader(…, h), never repeats the copy into the same file (loop) and never resets h; DownloadResult.Digest is h.Sum", 4)
+	fn := c.SSA(r, pRegistry, "Download")
+	if fn == nil {
+		return
+	}
+	cp, _ := c.W.ExtObj("io", "Copy").(*types.Func)
+	tee, _ := c.W.ExtObj("io", "TeeReader").(*types.Func)
+	openFile, _ := c.W.ExtObj("os", "OpenFile").(*types.Func)
+	if cp == nil || tee == nil || openFile == nil {
+		c.R.Unresolved(r, "io.Copy / io.TeeReader / os.OpenFile")
+		return
+	}
+	copies := kit.CallsTo(fn, Set(cp))
+	c.R.Check(len(copies) == 1, r, "Download: one io.Copy into the staging file", c.Pos(fn.Pos()), "one", "expected exactly one io.Copy in Download: the staged file must receive exactly one stream", true)
+	loops := kit.Loops(fn)
+	var hashers []ssa.Value
+	for _, call := range copies {
+		a := call.Common().Args
+		inLoop := false
+		for _, l := range loops {
+			if l.Contains(call) {
+				inLoop = true
+			}
+		}
+		c.R.Check(!inLoop, r, "Download: the copy into the staging file is not repeated", c.Pos(call.Pos()), "straight-line", "io.Copy into the staging file runs in a loop (a retry): the file is opened once and neither truncated nor rewound, so a second response is APPENDED to the partial first one while the digest covers only the last response — CheckCorruption, the verifier and the manifest see the genuine digest, ExtractBinary reads the first (unsigned) archive in the file", true)
+		// dst is the file created by OpenFile
+		dstOK := kit.DerivesFrom(a[0], func(x ssa.Value) bool {
+			cl, ok := x.(*ssa.Call)
+			return ok && kit.CalleeOf(cl.Common()) == openFile
+		})
+		c.R.Check(dstOK, r, "Download: the copy writes the file it created", c.Pos(call.Pos()), "os.OpenFile(destPath, …O_EXCL…)", "io.Copy's destination is not the file Download created", true)
+		// src is TeeReader(_, h)
+		srcOK := false
+		kit.DerivesFrom(a[1], func(x ssa.Value) bool {
+			cl, ok := x.(*ssa.Call)
+			if ok && kit.CalleeOf(cl.Common()) == tee {
+				srcOK = true
+				hashers = append(hashers, kit.Unwrap(cl.Call.Args[1]))
+				return true
+			}
+			return false
+		})
+		c.R.Check(srcOK, r, "Download: every byte written is hashed", c.Pos(call.Pos()), "io.TeeReader(body, h)", "io.Copy's source is not an io.TeeReader into the hasher: the bytes written to the staging file are not the bytes that are hashed", true)
+	}
+	// no Reset on a hasher; Digest from Sum
+	sumOK := false
+	for _, b := range fn.Blocks {
+		for _, in := range b.Instrs {
+			ci, ok := in.(ssa.CallInstruction)
+			if !ok || !ci.Common().IsInvoke() {
+				continue
+			}
+			isH := false
+			for _, h := range hashers {
+				if kit.Unwrap(ci.Common().Value) == h || kit.IsVar(ci.Common().Value, h) {
+					isH = true
+				}
+			}
+			if !isH {
+				continue
+			}
+			switch ci.Common().Method.Name() {
+			case "Reset":
+				c.R.Fail(r, "Download: the hasher is never reset", c.Pos(ci.Pos()), "the hasher is reset after bytes were written to the staging file: the reported digest no longer covers the file's content")
+			case "Sum":
+				sumOK = true
+			}
+		}
+	}
+	c.R.Check(sumOK && len(hashers) > 0, r, "Download: the digest is the hasher's sum", c.Pos(fn.Pos()), "h.Sum", "DownloadResult.Digest is not computed by Sum on the hasher the TeeReader feeds", true)
 }
